@@ -386,6 +386,15 @@ def rp66_file(rng, size='small', seven_bit=True, hostile_names=True, layout=None
                 nfr = 0               # a frame type without frame data: outside the quantifier of C04 / C18, only counted
             x0 = rng.choice([0.0, 1000.0, -250.5, 1e6, 3.25] * 3 + [1e15, -1e-3, 4194304.5])
             style = rng.choice(['even', 'even', 'even', 'jitter', 'steps', 'constant', 'reverse'])
+            if rng.random() < (0.4 if f.channels[0].rc == FDOUBL else 0.1):
+                # an axis of small magnitude that steps through zero, each value the previous one plus the step (what a producer
+                # that accumulates does): next to zero the rounding residue is as large as the value, and only a relative test
+                # tells 2.8e-17 from the 5.6e-17 (or the 0.0) of the run's extrapolation
+                x0 = rng.choice([-0.3, -0.5, -1.0, -0.2, -0.7, -0.1524 * 3, 0.3, 0.9])
+                style = rng.choice(['accumulate', 'accumulate', 'accumulate-down'])
+                if x0 > 0 and style == 'accumulate':
+                    style = 'accumulate-down'
+                nfr = max(nfr, min(maxf, 8)) if nfr else nfr
             xs = []
             x = x0
             step = rng.choice([0.5, 0.1, 1.0, 0.1524, 60.0])
@@ -394,6 +403,10 @@ def rp66_file(rng, size='small', seven_bit=True, hostile_names=True, layout=None
                     x = x0 + step * k
                 elif style == 'reverse':
                     x = x0 - step * k
+                elif style == 'accumulate':
+                    x = x0 if k == 0 else x + (step if step in (0.1, 0.1524) else 0.1)
+                elif style == 'accumulate-down':
+                    x = x0 if k == 0 else x - (step if step in (0.1, 0.1524) else 0.1)
                 elif style == 'jitter':
                     x = x + step * rng.choice([1, 1, 1, 2, 0.5, 1.000001])
                 elif style == 'steps':
